@@ -12,7 +12,7 @@ HDR = '#include "celer.h"\n'
 ID_TYPES = """
 typedef size_type ThreadId;      /* OpaqueId<struct Thread_, size_type>: value, invalid = all ones; .get() asserts validity */
 typedef size_type TrackSlotId;
-#define INVALID_ID 0xffffffffu
+#define INVALID_ID ((size_type)-1)
 static size_type ID_get(size_type id) { __CPROVER_assert(id != INVALID_ID, "celer_expect: OpaqueId::get() on a valid id"); return id; }
 """
 UT_RULES = [
@@ -59,7 +59,7 @@ def build_index_after(ctx):
     return (HDR + ID_TYPES + """
 size_type index_after(size_type size, ThreadId tid)
 __CPROVER_requires(tid != INVALID_ID)   /* own CELER_EXPECT */
-__CPROVER_requires((ull_int)size + tid <= 0xffffffffull)   /* stated range: no wrap */
+__CPROVER_requires((unsigned __int128)size + tid <= (unsigned __int128)(size_type)-1)   /* stated range: no wrap */
 __CPROVER_assigns()
 __CPROVER_ensures(__CPROVER_return_value >= size && __CPROVER_return_value == size + tid)
 {""" + pc.body + """}
